@@ -216,7 +216,14 @@ class Report:
         cov.setdefault('distinct_nontrivial', len(self.distinct))
         if extra:
             cov.update(extra)
-        ev = {'property_id': self.prop, 'tier': self.tier, 'seed': seed(), 'level': self.level,
+        from . import levels
+        level = levels.LEVELS.get(self.prop, {}).get('category', self.level)
+        cov.setdefault('rule', 'cases: corpus of past failures, then seeded scenario families and random DSL programs x histories x trees '
+                               '(VERIF_SEED); distinct_nontrivial counts distinct cases (program, history, tree) with at least one cache hit and '
+                               'one executed function; for schedule exploration: distinct scenarios / (builder kind, method) pairs')
+        if level == 'proof' and cov['obligations'] == 0:
+            level = 'translation_validation'
+        ev = {'property_id': self.prop, 'tier': self.tier, 'seed': seed(), 'level': level,
               'coverage': cov, 'assumptions': self.assumptions, 'wall_s': round(time.time() - self.t0, 2),
               'violations': len(self.violations)}
         os.makedirs(EVIDENCE_DIR, exist_ok=True)
